@@ -315,25 +315,29 @@ def _model_loop(E, dt, steps, msteps, dtid, k, ctx, modtext, modname):
         full = ''.join(window + [res['out']])
         wt = want_text + '\n'
         vr = res['value_repr']
+
+        def same(a, b):
+            # exact up to the final line break (an unfinished last line is still that line)
+            return a.rstrip('\n') == b.rstrip('\n')
         if isinstance(vr, tuple):
             # repr raised: only consulted when stdout does not settle it
-            if res['out'] and (full == wt or res['out'] == wt):
+            if res['out'] and (same(full, wt) or same(res['out'], wt)):
                 window = []
                 continue
             _fail(E, idx, ['ExtractGotReprException', vr[1]], False, (ms['first'], ms['last']))
             E.notes.append('repr of the value raised')
             break
-        ok_full = (full == wt)
-        ok_last = W.is_expr(st) and res['out'] == wt
-        ok_repr = vr is not None and vr + '\n' == wt
+        ok_full = same(full, wt)
+        ok_last = W.is_expr(st) and same(res['out'], wt)
+        ok_repr = vr is not None and same(vr, wt)
         if ok_full or ok_last or ok_repr:
             window = []
             continue
         # echo of a REPL-mode value may complete the output
-        if alt is not None and (''.join(window) + alt == wt or alt == wt):
+        if alt is not None and (same(''.join(window) + alt, wt) or same(alt, wt)):
             window = []
             continue
-        if full.endswith(wt) or (alt is not None and (''.join(window) + alt).endswith(wt)):
+        if full.rstrip('\n').endswith(wt.rstrip('\n')) or (alt is not None and (''.join(window) + alt).rstrip('\n').endswith(wt.rstrip('\n'))):
             # want equals a trailing portion of the output that is none of the
             # three documented forms: the property neither requires pass nor fail
             E.silent.add('verdict')
